@@ -101,7 +101,7 @@ def run(ctx):
   ctx.trusted = ["Coq 8.16.1 kernel + vm_compute", "certificate checkers in Model/CaseDefs.v (exact rationals)",
                  "oracles: scipy pinvh / eigh / eigsh, numpy cov", "LFDA reference is an independent NumPy evaluation (exp), not a Coq model",
                  "completeness of the spectrum (leading eigenvectors) is certified per instance, not proved"]
-  ok = ctx.build_property()
+  ok = ctx.build_property(gen_needed=['Src_rca'])
   terms, recs = [], []
   n = 60 if thorough else 12
   for i in range(n):
